@@ -42,6 +42,7 @@ func init() {
 			"M5 the destination of every os.Rename/os.Symlink into outs/ derives from GetOutFilename() of the member being moved, " +
 			"M6 the duplicate output-name rejection of StructType.compile sees every member with a non-empty out filename (lookup, then error or insertion, on every such iteration) and the struct synthesised from each callable's outputs is compiled by it. " +
 			"M7 a relative link target is joined with the directory of the very link it was read from; M8 a missing source is recorded as null only after the destination under outs/ was looked at. " +
+			"M9 a decoded map's key is joined into a path only behind IsLegalUnixFilename(key) == nil; M10 a loop collecting the keys of a decoded map collects every key. " +
 			"NOT decided: file contents, which files exist, symlink arithmetic (relative paths), that the hand-assembled JSON is valid beyond these conditions, display output.",
 		Assumptions: append([]string{
 			"values of static type json.RawMessage hold JSON text (they come from json.Unmarshal into RawMessage-based containers or from encoders); a conversion of a string to json.RawMessage is reported",
